@@ -45,3 +45,13 @@ package table_valued_functions
 //@   stream 1 invariant window: len(OUT) > 0 ==> lastOut().Values[len(lastIn().Values)].Time.ns <= lastIn().Values[t.timeFieldIndex].Time.ns && lastIn().Values[t.timeFieldIndex].Time.ns < lastOut().Values[len(lastIn().Values)+1].Time.ns
 //@   stream 1 invariant length: len(OUT) > 0 ==> lastOut().Values[len(lastIn().Values)+1].Time.ns - lastOut().Values[len(lastIn().Values)].Time.ns == windowLength.Duration
 //@   ensures errprop: runErr != nil ==> result != nil
+
+// C21 range(start, end): one record per integer of [start, end), in ascending order, each a one-column Int row that is
+// not a retraction; nothing when start >= end; no metadata. A produce error stops the stream and is returned.
+//@ func (*rangeNode).Run
+//@   loop 1 invariant progress: evalVal(r.start, ctx).Int <= i && len(OUT) == i - evalVal(r.start, ctx).Int && (evalVal(r.start, ctx).Int < evalVal(r.end, ctx).Int ==> i <= evalVal(r.end, ctx).Int) && (evalVal(r.start, ctx).Int >= evalVal(r.end, ctx).Int ==> i == evalVal(r.start, ctx).Int) && len(OUTM) == 0 && !produceFailed()
+//@   loop 1 invariant rows: forall(j, 0, len(OUT), 0 < OUT[j].Values.base && OUT[j].Values.base < frontier() && len(OUT[j].Values) == 1 && OUT[j].Values[0].TypeID == 1 && OUT[j].Values[0].Int == evalVal(r.start, ctx).Int + j && !OUT[j].Retraction)
+//@   ensures count: result == nil ==> len(OUT) == ite(evalVal(r.start, ctx).Int < evalVal(r.end, ctx).Int, evalVal(r.end, ctx).Int - evalVal(r.start, ctx).Int, 0)
+//@   ensures rows: result == nil ==> forall(j, 0, len(OUT), len(OUT[j].Values) == 1 && OUT[j].Values[0].TypeID == 1 && OUT[j].Values[0].Int == evalVal(r.start, ctx).Int + j && !OUT[j].Retraction)
+//@   ensures nometa: len(OUTM) == 0
+//@   ensures errprop: produceFailed() || evalErr(r.start, ctx) != nil || evalErr(r.end, ctx) != nil ==> result != nil
